@@ -34,7 +34,10 @@ ID = "C18"
 LEVEL = "exploration"
 RULE = ("reuse-*: the generated cases of C01-C04, C08-C14, C19, C20 re-run on the sanitised build; reentrant: Hypothesis "
         "programs (<=15 ops, scripts of <=3 actions for up to 5 callback sites); protocol: every (configuration, hostile value, "
-        "k-th call) triple of the stated grid (exhaustive); refcount: every operation of a 34-entry table (exhaustive); "
+        "k-th call) triple of the stated grid (exhaustive); refcount: every operation of a 34-entry table (exhaustive); refgrid: "
+        "every lattice configuration x (lattice values + 28 containers with mortal convertible items), reference counts of the "
+        "value and of everything nested in it after 1/11/41 assignments to fresh objects; deffault(-asan): default callback "
+        "kind x exception class x warnings filter x access route (exhaustive); "
         "non-trivial = the program takes an error path or re-enters during a callback; distinct by digest")
 ASSUMPTIONS = ["ordinary attribute names are immortal interned strings on 3.12: their counts carry no information",
                "hostile direct calls to CTrait.__setstate__ with hand-made tuples are not documented API and are not generated",
